@@ -299,6 +299,10 @@ def gen_c02(tier, seed):
     universe = ["/a", "/a/x", "/b", "/c"]
     for i in range(120 if tier == "quick" else 2000):
         ids = sorted(rng.sample(range(0, 8), rng.randrange(1, 6)))
+        if i % 4 == 3:
+            # version numbers do not stop at four digits (b9999, b10000, ...)
+            ids = sorted(set(rng.sample([0, 7, 998, 999, 1000, 9998, 9999, 10000, 10001, 99999, 100000], rng.randrange(2, 5)))
+                         | ({9999, 10000} if rng.random() < 0.6 else set()))
         lay = []
         for _ in ids:
             # (a head-less directory that still has its tail -- what a delete killed inside the removal of
@@ -450,6 +454,30 @@ def filtered_reads(tree):
     return out
 
 
+def combine_tree(rng):
+    """Many small files (with empty files, directories and a large file between them) and settings
+    under which combined blocks fill in the middle of a hunk group, exactly at its end, or on the
+    last small file of the run."""
+    S = rng.choice([1, 2, 3])
+    M = rng.choice([S, S + 1, 2 * S, 2 * S + 1])
+    H = rng.choice([2, 3, 4, 5, 1000])
+    t = [node("/", "Dir")]
+    names = ["a", "b", "c", "d", "e", "f", "g", "h", "i", "j"]
+    k = rng.randrange(4, 10)
+    for j, nm in enumerate(names[:k]):
+        r = rng.random()
+        if r < 0.6:
+            t.append(node("/" + nm, "File", bytes([(j % 5) + 1]) * rng.randrange(1, S + 1), mt=(1600000900 + j, 0)))
+        elif r < 0.75:
+            t.append(node("/" + nm, "File", b"", mt=(1600000900 + j, 0)))
+        elif r < 0.9:
+            t.append(node("/" + nm, "Dir"))
+            t.append(node("/" + nm + "/x", "File", bytes([9]) * rng.randrange(1, S + 1), mt=(1600000950 + j, 0)))
+        else:
+            t.append(node("/" + nm, "File", bytes((j + i) % 7 + 1 for i in range(M + 2)), mt=(1600000900 + j, 0)))
+    return t, {"H": H, "M": M, "S": S}
+
+
 @check("C03", "model_checking", "TLA+ spec + TLC (every pc of the backup actor x clean/empty-file crash) + crash-point enumeration on the real code, every intermediate state judged by the spec's monitors")
 def gen_c03(tier, seed):
     rng = random.Random(seed * 1000 + 3)
@@ -477,6 +505,17 @@ def gen_c03(tier, seed):
                   {"op": "sweep", "base": bk(o), "mode": "crash_both", "sample": 0 if tier != "quick" else 24, "seed": seed * 100 + i,
                    "then": AFTER_CRASH + (filtered_reads(t1) if prev != "none" else []) + [bk(o), {"op": "restore", "band": -1}]}]
         scens.append({"id": sid("C03", prev, i), "props": ["C03"], "mode": "clean", "tags": ["crash", prev], "steps": steps})
+    # many small files: combined blocks that fill in the middle of a group, at its end, on the last file
+    for i in range(8 if tier == "quick" else 100):
+        t1, o = combine_tree(rng)
+        steps = []
+        if i % 2:
+            t0, _ = combine_tree(rng)
+            steps += [{"op": "tree", "tree": t0}, bk(o)]
+        steps += [{"op": "tree", "tree": t1},
+                  {"op": "sweep", "base": bk(o), "mode": "crash_both", "sample": 0 if tier != "quick" else 20, "seed": seed * 100 + i,
+                   "then": AFTER_CRASH + [bk(o), {"op": "restore", "band": -1}]}]
+        scens.append({"id": sid("C03", "combine", i), "props": ["C03"], "mode": "clean", "tags": ["crash", "combine"], "steps": steps})
     return scens
 
 
@@ -515,6 +554,12 @@ def gen_c04(tier, seed):
         steps += [{"op": "tree", "tree": t1}, sw]
         scens.append({"id": sid("C04", "fw" if writes else "fa", i), "props": ["C04"], "mode": "fault",
                       "tags": ["single-fault", "writes" if writes else "all-verbs"], "steps": steps})
+    for i in range(6 if tier == "quick" else 80):
+        t1, o = combine_tree(rng)
+        scens.append({"id": sid("C04", "combine", i), "props": ["C04"], "mode": "fault", "tags": ["single-fault", "combine"],
+                      "steps": [{"op": "tree", "tree": t1},
+                                {"op": "sweep", "base": bk(o), "mode": "fail", "verbs": ["write", "create_dir"], "sample": 0 if tier != "quick" else 32,
+                                 "seed": seed * 100 + i, "then": after}]})
     m = 60 if tier == "quick" else 1000
     for i in range(m):
         o = rng.choice(C04_OPTS)
@@ -674,6 +719,10 @@ def gen_c06(tier, seed):
                       "actors": [bk(o, actor="bk"), {"op": "delete", "bands": dele, "actor": "gc"}],
                       "preemptions": 2 if tier == "quick" or i % 4 else 3,
                       "sample": 60 if tier == "quick" else 1500, "seed": seed * 100 + i,
+                      # every schedule with up to 3 preemptions (quick: an even spread of them) is first run
+                      # with the log muted and screened with the harness's decoder; the suspicious ones are
+                      # then executed with full logging and judged by TLC like the sampled ones
+                      "screen": 3, "screen_cap": (2500 if i % 2 == 0 else 1000) if tier == "quick" else 40000,
                       "then": [{"op": "restore_all"}, {"op": "validate"}]})
         scens.append({"id": sid("C06", "s", i), "props": ["C06"], "mode": "conc", "tags": ["gc-vs-backup", "del" + "".join(map(str, dele))],
                       "steps": steps})
@@ -695,6 +744,14 @@ def gen_c07(tier, seed):
     for i in range(n):
         steps = history_steps(rng, rng.choice([4, 6, 9]), observe=None, validate=False)
         scens.append({"id": sid("C07", "h", i), "props": ["C07"], "mode": "clean", "tags": ["history"], "steps": steps})
+    # a new version's id is above every existing one also when the ids have five digits
+    for i, top in enumerate([9998, 9999, 10000, 99999]):
+        lay = [{"st": "complete", "hunks": [[1]], "off": 0}, {"st": rng.choice(["complete", "incomplete"]), "hunks": [[1]], "off": 0}]
+        base = c08_scenario(sid("C07", "bigid", i), lay, ["/a"], [top - rng.randrange(1, 4), top], ["big-ids"])
+        t = random_tree(rng, nmax=3, pre_epoch=False, maxlen=4)
+        scens.append({"id": sid("C07", "bigid", i), "props": ["C07"], "mode": "clean", "no_create": True, "tags": ["big-ids"],
+                      "steps": [base["steps"][0], {"op": "tree", "tree": t}, bk(rng.choice(OPTS_POOL[:5])), {"op": "tree", "tree": mut(rng, t, maxlen=4)},
+                                bk(rng.choice(OPTS_POOL[:5])), {"op": "versions"}, {"op": "restore", "band": -1}]})
     # direct contract probe of the transport
     scens.append({"id": sid("C07", "probe", 0), "props": ["C07"], "mode": "probe", "tags": ["contract-probe"], "steps": [
         {"op": "probe_write", "path": "probe_x", "content": [1, 2, 3], "mode": "new"},
@@ -718,6 +775,7 @@ def gen_c07(tier, seed):
         steps.append({"op": "conc_sweep",
                       "actors": [bk(o, actor="bk1", tree=ta), bk(rng.choice(OPTS_POOL[:6]), actor="bk2", tree=tb)],
                       "preemptions": 2, "sample": 50 if tier == "quick" else 1000, "seed": seed * 100 + i,
+                      "screen": 3, "screen_cap": 800 if tier == "quick" else 20000,
                       "then": [{"op": "restore_all"}]})
         scens.append({"id": sid("C07", "race", i), "props": ["C07"], "mode": "conc", "tags": ["backup-vs-backup"], "steps": steps})
     # two deletes / gcs started at the same moment: each removes only the requested versions,
@@ -729,6 +787,7 @@ def gen_c07(tier, seed):
         d2 = rng.choice([[], [0], list(range(nb))])
         steps.append({"op": "conc_sweep", "actors": [{"op": "delete", "bands": d1, "actor": "gc1"}, {"op": "delete", "bands": d2, "actor": "gc2"}],
                       "preemptions": 2, "sample": 40 if tier == "quick" else 600, "seed": seed * 100 + i,
+                      "screen": 3, "screen_cap": 800 if tier == "quick" else 20000,
                       "then": [{"op": "restore_all"}, bk(o), {"op": "restore", "band": -1}]})
         scens.append({"id": sid("C07", "gcrace", i), "props": ["C07"], "mode": "conc", "tags": ["gc-vs-gc"], "steps": steps})
     return scens, mcs
@@ -1211,6 +1270,8 @@ def gen_c08(tier, seed):
     n = 150 if tier == "quick" else 3000
     for i in range(n):
         ids = sorted(rng.sample(range(0, 9), rng.randrange(2, 7)))
+        if i % 5 == 4:
+            ids = sorted(rng.sample([0, 8, 999, 1000, 9998, 9999, 10000, 10001, 100000], rng.randrange(2, 6)))
         lay = []
         for _ in ids:
             st = rng.choice(["incomplete", "incomplete", "complete", "nohead", "incomplete", "noheadtail"])
@@ -1441,6 +1502,13 @@ def run_check(prop, tier, seed, t0, keep=False):
                            "exhaustive": not r.get("simulated", False), **({"random_behaviours": r["traces"]} if r.get("simulated") else {})} for _, cfg, r in mc],
         "other_monitors_fired": other,
     }
+    if res["sweep"]["injections"]:
+        cov["injections_executed_and_judged"] = res["sweep"]["injections"]
+    if res["sweep"]["screened"]:
+        cov["schedules_screened_by_harness_decoder"] = res["sweep"]["screened"]
+        cov["screened_schedules_found_suspicious_and_replayed_for_tlc"] = res["sweep"]["hot"]
+        print(f"[check {prop}] schedule search: {res['sweep']['screened']} schedules with <= 3 preemptions screened with the log muted, "
+              f"{res['sweep']['hot']} looked suspicious and were executed again for TLC")
     if proto:
         cov["protocol_calls_followed"] = res["proto_calls"]
         cov["protocol_drift_records"] = len(res["drift"])
